@@ -165,6 +165,27 @@ check("C04",
       "Lean 4 proof of CRC-32 burst detection (linear-register invariant) + differential correspondence + exhaustive bit-flip exploration",
       "DESIGN.md §4 C04")
 
+check("C14",
+      "Theorems (Lean): the placeholder signature header cannot verify, so every crash image taken before the final "
+      "rewrite is rejected (kernel-evaluated CRC over the concrete placeholder, for any bytes after it); a rewrite torn "
+      "inside its first eight bytes leaves the placeholder unchanged; a rewrite torn inside its last four bytes is "
+      "rejected by the start-header CRC unless it equals the final header (burst theorem). The remaining torn positions "
+      "(bytes 8..27) depend on the session's values and are decided by exploration: create and append sessions on a "
+      "tracing file object, EVERY byte-granular prefix of the write stream plus dropped/reordered last blocks, each image "
+      "opened by py7zr and by the independent reader and required to be rejected or complete and correct. The start-header "
+      "gate is tied to the code by the crash stream. Partial: what a real OS persists is modelled as write prefixes.",
+      "Lean 4 proofs about torn signature headers (CRC burst theorem) + differential correspondence + exhaustive crash-prefix exploration",
+      "DESIGN.md §4 C14")
+check("C15",
+      "Theorem (Lean, histories of any length, any number of failing calls at any stage): every failing call raises, "
+      "no other call does, and the closed archive describes exactly the members of the successful calls in order with "
+      "their sizes and CRCs — the failed source is never retried; counter-example theorem for the pinned tree (F7, "
+      "repaired). Tied by the ws stream: real sessions with injected faults (missing source, dangling link, FIFO, "
+      "rejected arcname, failing stream, EACCES on lstat, EIO on open, un-stat-able inner member of writeall) compared "
+      "call by call and member by member with the model; mid-read failures are held to the property's weaker clause.",
+      "Lean 4 invariant proof over the write-session model + differential correspondence of fault-injected sessions",
+      "DESIGN.md §4 C15")
+
 ALL = ["C%02d" % i for i in range(1, 21)]
 REASON_PENDING = "not yet claimed in this revision: model/theorems/correspondence for it are still being built (see DESIGN.md §8.3 staging)"
 
